@@ -147,6 +147,14 @@ def shape_obligations(hint_src, conf_src='BeartypeConf()', want=('C01', 'C02', '
                         add(f'C02.nonrandom0.seq{si}.path{pi}', 'post', hy, z3.Not(tv), 'C02')
             if 'C09' in want:
                 add(f'C09.cost.path{pi}', 'cost', pc, (s.cost if not isinstance(s.cost, int) else z3.IntVal(s.cost)) <= bound, 'C09', f'bound={bound}', extra=dict(bound=bound))
+                reads = [e[1:] for e in s.events if e and e[0] == 'read']
+                over = sp.level_budget([hint], x, reads)
+                if over:
+                    # only a feasible path counts: the path condition must be satisfiable
+                    t_, seen_, allowed_ = over[0]
+                    add(f'C09.level.path{pi}', 'cost', pc, z3.BoolVal(False), 'C09', f'container {t_}: {seen_}, the hint allows {allowed_} per evaluation (one item / one key and its value per container nesting level)', extra=dict(allowed=allowed_))
+                else:
+                    rec['obligations'].append(dict(name=f'C09.level.path{pi}', kind='cost', status='proved', time=0.0, backend='structural', prop='C09', where=f'{len(reads)} reads, each container object read at most as often as the container nodes of the hint applying to it allow'))
             if 'C10' in want:
                 for ei, (op, tgt, detail) in enumerate(s.effects):
                     if op not in ALLOWED_EFFECTS:
@@ -181,7 +189,7 @@ def summarize_model(m, uni, x, r):
     return out
 
 REPLAY_KIND = [('C01.post', 'C01'), ('C02.mustreject', 'C02.mustreject'), ('C02.reach', 'C02.reach'), ('C02.nonrandom0', 'C02.reach'),
-               ('C02.consistent', 'C02.consistent'), ('defined', 'defined'), ('C09.cost', 'C09'), ('C10.effect', 'C10'), ('frame', 'defined')]
+               ('C02.consistent', 'C02.consistent'), ('defined', 'defined'), ('C09.cost', 'C09'), ('C09.level', 'C09L'), ('C10.effect', 'C10'), ('frame', 'defined')]
 def try_replay(name, res, uni, x, r, hint_src, conf_src, extra):
     """concretise the refuting model (progressively weaker size bounds) and replay on the real code; first reproduction wins"""
     from . import concretise, replaylib
@@ -191,7 +199,7 @@ def try_replay(name, res, uni, x, r, hint_src, conf_src, extra):
     try:
         for b, m in concretise.resolve_small(res):
             try:
-                cz = concretise.Concretiser(m, uni, counting=(kind == 'C09'))
+                cz = concretise.Concretiser(m, uni, counting=(kind in ('C09', 'C09L')))
                 obj_src = cz.build(x); rv = concretise._int(m, r)
                 ok, detail = replaylib.replay_gen(kind, hint_src, conf_src, obj_src, rv, extra)
             except Exception as e:
